@@ -1132,6 +1132,7 @@ def execute(prog):
         flags.setdefault("norm", False)
         flags.setdefault("file", False)
         flags.setdefault("fullhist", False)
+        flags.setdefault("deep", False)
         if hdr["millis"]:
             # unit = 1/1000 uL: records carry rounded volumes, judged by C01.rounding / C01.address, not by the exact robot replay
             flags["records"] = True
@@ -1149,6 +1150,11 @@ def execute(prog):
             events.extend(ev if isinstance(ev, list) else [ev])
         if tw.fullhist:
             events.append(tw.final_event())
+        if flags.get("deep"):
+            # a dilution series whose exact fractions leave the 32 bit range by construction: only the presence of the
+            # components is judged (C05.support), the fraction clauses are switched off for the whole trace
+            for ev in events:
+                ev["cs"] = False
         hdr["events"] = events
         return hdr
     finally:
